@@ -36,6 +36,14 @@ import (
 //	        scenario = "-" or letters: g garbage, k other key, w wrong sid (a response), t truncated, i insider
 //	        (right key, right sid, not a response), m the owner holds another secret key, l the response of the
 //	        party that is not the sender arrives late (after the sender's probe)
+//	        w / v / c a well-formed NatHoleSid of ANOTHER session (same key, Response = true) queued at both sockets /
+//	        only the visitor's / only the owner's before either MakeHole starts, f the same with Response = false
+//	pwdm <role S|R|N> <sid> <items>                           => <a|b|c|n|o>#<replies|->
+//	        one real waitDetectMessage: MakeHole(role, sid, no addresses to probe, ReadTimeoutMs 30) on a fresh socket
+//	        at which the listed datagrams are already queued, in order.  item = <src a|b|c><code>: j garbage,
+//	        k0/k1 our sid under another key, t0/t1 truncated, o0/o1 OUR sid (Response 0/1), f0/f1 another session's
+//	        sid, p0/p1 our sid with a suffix, e0/e1 the empty sid.  Result: the source whose address MakeHole returned
+//	        (n = error) and everything each source got back (<src>:1 = our sid with Response = true, :0 = without, :x)
 //	pwait <id>                                                => V=<resp|->#C=<resp|->#<v>;<c>
 //	        v, c = p (MakeHole returned the peer's address) | q (another socket of the peer: the one the peer's MakeHole
 //	        chose) | t (the third party's) | o (another) | n (error) | x (not run)
@@ -101,6 +109,7 @@ func punchRcvBuf(c *net.UDPConn) int {
 type punchState struct {
 	ctl   *nathole.Controller
 	third *net.UDPConn
+	src   [3]*net.UDPConn // the sources of pwdm datagrams
 	sess  map[int]*punchSess
 }
 
@@ -114,6 +123,9 @@ func punchReset() {
 			s.cConn.Close()
 		}
 		punchSt.third.Close()
+		for _, c := range punchSt.src {
+			c.Close()
+		}
 	}
 	c, _ := nathole.NewController(time.Hour)
 	t, err := punchListen()
@@ -121,6 +133,111 @@ func punchReset() {
 		panic(err)
 	}
 	punchSt = &punchState{ctl: c, third: t, sess: map[int]*punchSess{}}
+	for i := range punchSt.src {
+		punchSt.src[i], err = net.ListenUDP("udp4", &net.UDPAddr{IP: net.IPv4(127, 0, 0, 1)})
+		if err != nil {
+			panic(err)
+		}
+	}
+}
+
+// punchWdm drives one waitDetectMessage through MakeHole: the instruction names no address to probe, so
+// MakeHole sends nothing and goes straight to the wait on `rcv`, where `items` are queued already.
+func punchWdm(st *punchState, role, sid string, items []string) string {
+	key := []byte("secret")
+	rcv, err := net.ListenUDP("udp4", &net.UDPAddr{IP: net.IPv4(127, 0, 0, 1)})
+	if err != nil {
+		return "fail:listen"
+	}
+	defer rcv.Close()
+	raddr := rcv.LocalAddr().(*net.UDPAddr)
+	enc := func(sid string, response bool, key []byte) []byte {
+		b, _ := nathole.EncodeMessage(&msg.NatHoleSid{TransactionID: "wdm", Sid: sid, Response: response, Nonce: "0000"}, key)
+		return b
+	}
+	for _, it := range items {
+		if len(it) < 2 || it[0] < 'a' || it[0] > 'c' {
+			return "bad-item"
+		}
+		src := st.src[it[0]-'a']
+		r := strings.HasSuffix(it, "1")
+		var b []byte
+		switch it[1] {
+		case 'j':
+			b = []byte("\x00garbage\xff not a sid message")
+		case 'k':
+			b = enc(sid, r, []byte("zzz"))
+		case 't':
+			b = enc(sid, r, key)
+			b = b[:len(b)-3]
+		case 'o':
+			b = enc(sid, r, key)
+		case 'f':
+			b = enc("F"+sid, r, key)
+		case 'p':
+			b = enc(sid+"x", r, key)
+		case 'e':
+			b = enc("", r, key)
+		default:
+			return "bad-item"
+		}
+		if _, err := src.WriteToUDP(b, raddr); err != nil {
+			return "fail:write"
+		}
+	}
+	roleStr := map[string]string{"S": nathole.DetectRoleSender, "R": nathole.DetectRoleReceiver, "N": ""}[role]
+	resp := &msg.NatHoleResp{Sid: sid, DetectBehavior: msg.NatHoleDetectBehavior{Role: roleStr, ReadTimeoutMs: 30}}
+	type res struct {
+		raddr *net.UDPAddr
+		err   error
+	}
+	ch := make(chan res, 1)
+	go func() {
+		_, a, err := nathole.MakeHole(context.Background(), rcv, resp, key)
+		ch <- res{a, err}
+	}()
+	var r res
+	select {
+	case r = <-ch:
+	case <-time.After(2 * time.Second):
+		rcv.Close()
+		return "hang"
+	}
+	out := "n"
+	if r.err == nil {
+		out = "o"
+		for i, c := range st.src {
+			if r.raddr != nil && r.raddr.String() == c.LocalAddr().String() {
+				out = string(rune('a' + i))
+			}
+		}
+	}
+	// what every source got back: an end marker from the (still open) socket delimits it, no waiting
+	replies := []string{}
+	buf := make([]byte, 2048)
+	for i, c := range st.src {
+		_, _ = rcv.WriteToUDP([]byte("END"), c.LocalAddr().(*net.UDPAddr))
+		for {
+			_ = c.SetReadDeadline(time.Now().Add(500 * time.Millisecond))
+			n, from, err := c.ReadFromUDP(buf)
+			if err != nil || (from.String() == raddr.String() && string(buf[:n]) == "END") {
+				break
+			}
+			if from.String() != raddr.String() {
+				continue // a leftover of an earlier socket
+			}
+			code := "x"
+			var m msg.NatHoleSid
+			if err := nathole.DecodeMessageInto(buf[:n], key, &m); err == nil && m.Sid == sid {
+				code = b01(m.Response)
+			}
+			replies = append(replies, string(rune('a'+i))+":"+code)
+		}
+	}
+	if len(replies) == 0 {
+		return out + "#-"
+	}
+	return out + "#" + strings.Join(replies, ",")
 }
 
 // punchLink wires one control connection: a client-side and a server-side transporter (the real
@@ -229,6 +346,8 @@ func punchExec(tok []string) string {
 			return "err"
 		}
 		return fmt.Sprintf("ok:%s,%s,%d", hx(out.Sid), b01(out.Response), len(out.Nonce))
+	case "pwdm":
+		return punchWdm(st, tok[1], unhx(tok[2]), strings.Split(tok[3], ","))
 	case "pstart":
 		id := atoi(tok[1])
 		if _, dup := st.sess[id]; dup {
@@ -308,10 +427,9 @@ func punchExec(tok []string) string {
 			return "fail:no-sid"
 		}
 		// noise first: it is queued at both sockets before either party starts MakeHole
-		send := func(b []byte) {
-			_, _ = st.third.WriteToUDP(b, vConn.LocalAddr().(*net.UDPAddr))
-			_, _ = st.third.WriteToUDP(b, cConn.LocalAddr().(*net.UDPAddr))
-		}
+		sendV := func(b []byte) { _, _ = st.third.WriteToUDP(b, vConn.LocalAddr().(*net.UDPAddr)) }
+		sendC := func(b []byte) { _, _ = st.third.WriteToUDP(b, cConn.LocalAddr().(*net.UDPAddr)) }
+		send := func(b []byte) { sendV(b); sendC(b) }
 		enc := func(sid string, response bool, key []byte) []byte {
 			b, _ := nathole.EncodeMessage(&msg.NatHoleSid{TransactionID: "noise", Sid: sid, Response: response, Nonce: "000"}, key)
 			return b
@@ -325,6 +443,12 @@ func punchExec(tok []string) string {
 				send(enc(s.sid, true, []byte("zzz")))
 			case 'w':
 				send(enc("nosuchsid", true, vKey))
+			case 'v':
+				sendV(enc("nosuchsid", true, vKey))
+			case 'c':
+				sendC(enc("nosuchsid", true, vKey))
+			case 'f':
+				send(enc("nosuchsid", false, vKey))
 			case 't':
 				b := enc(s.sid, true, vKey)
 				send(b[:len(b)-3])
@@ -474,7 +598,7 @@ func punchGen(rng *rand.Rand, n int, emit func(string)) {
 			nextID = 0
 			k := 6 + rng.Intn(5)
 			ids := []int{}
-			ee := 0
+			ee, stray := 0, 0
 			heavy := 0 // modes 2 and 4 open 256 sockets per receiver and take 4 s: at most three per batch
 			for j := 0; j < k; j++ {
 				vk, ck := pick(rng, kinds), pick(rng, kinds)
@@ -504,7 +628,7 @@ func punchGen(rng *rand.Rand, n int, emit func(string)) {
 				switch rng.Intn(10) {
 				case 0, 1, 2:
 					scn = ""
-					for _, c := range "gkwt" {
+					for _, c := range "gkwtvcf" {
 						if rng.Intn(2) == 0 {
 							scn += string(c)
 						}
@@ -525,6 +649,22 @@ func punchGen(rng *rand.Rand, n int, emit func(string)) {
 					if ee >= 3 {
 						vk, ck, scn = pick(rng, []string{"e", "r"}), "r", "-"
 					} else {
+						// every batch: a datagram of another session (Response = true) waits at the visitor's socket in
+						// one fast session and at the owner's in another (rows 0 and 1 of mode 0 swap the roles, so
+						// both a receiver and a sender meet one before the genuine detect message)
+						if !strings.ContainsAny(scn, "mi") {
+							extra := ""
+							switch stray {
+							case 0:
+								extra = "v"
+							case 1:
+								extra = "c"
+							}
+							stray++
+							if extra != "" && !strings.Contains(scn, extra) {
+								scn = strings.Replace(scn, "-", "", 1) + extra
+							}
+						}
 						ee++
 					}
 				}
@@ -536,6 +676,31 @@ func punchGen(rng *rand.Rand, n int, emit func(string)) {
 			for _, id := range ids {
 				e(fmt.Sprintf("pwait %d", id))
 			}
+			continue
+		}
+		if rng.Intn(2) == 0 {
+			// one waitDetectMessage over a queued inbox: datagrams of other sessions (same key, Response true / false),
+			// undecodable ones and our own session's, from three sources, in every order — before, between and
+			// after the genuine ones
+			codes := []string{"j", "k1", "k0", "t1", "t0", "o0", "o0", "o0", "o1", "o1", "f0", "f1", "f1", "p0", "p1", "e0", "e1"}
+			harmless := []string{"j", "k1", "t1", "f0", "f1", "f1", "p0", "p1", "e1", "e0"}
+			srcs := []string{"a", "b", "c"}
+			items := []string{}
+			if rng.Intn(3) == 0 {
+				for j := 1 + rng.Intn(3); j > 0; j-- {
+					items = append(items, pick(rng, srcs)+pick(rng, harmless))
+				}
+				items = append(items, pick(rng, srcs)+pick(rng, []string{"o0", "o0", "o1"}))
+				for j := rng.Intn(3); j > 0; j-- {
+					items = append(items, pick(rng, srcs)+pick(rng, codes))
+				}
+			} else {
+				for j := 1 + rng.Intn(6); j > 0; j-- {
+					items = append(items, pick(rng, srcs)+pick(rng, codes))
+				}
+			}
+			sid := pick(rng, []string{"s1", "0123456789abcdef", "sid with space", "s1", ""})
+			e(fmt.Sprintf("pwdm %s %s %s", pick(rng, []string{"S", "R", "R", "N"}), hx(sid), strings.Join(items, ",")))
 			continue
 		}
 		// the sid-message codec
